@@ -561,7 +561,7 @@ QCode(q, F) == CASE Kind = "vars" -> VarCode(scene, q, F)
                  [] Kind = "dro"  -> DroCode(q, F)
 
 \* C12 on the transcription selected by Fixed
-CodeIsIdeal == \A j \in 1..Len(Queries) : QCode(Queries[j], Fixed) = QIdeal(Queries[j])
+CodeIsIdeal == LET qs == Queries IN \A j \in 1..Len(qs) : QCode(qs[j], Fixed) = QIdeal(qs[j])
 \* ldr: the dependency matrix the formulation uses is what was declared; illegal re-declarations raise
 DepExact == Kind = "ldr" => (dep = decl /\ (hist # <<>> => (out = "ok") = hist[Len(hist)].ok))
 \* dro: the event list is a partition and labels name their own event
@@ -572,13 +572,13 @@ EventsExact == Kind = "dro" =>
 TypeOK == out \in {"ok", "err"} /\ Len(hist) <= (IF Kind \in {"ldr", "dro"} THEN P.MaxSteps ELSE 0)
 
 \* Known_f: the named alternatives of a query = what the code returns with defect f unrepaired
-Alts(q) ==
-    LET id == QIdeal(q)
-        tr == SelectSeq(KindFlags, LAMBDA f : QCode(q, AllFlags \ {f}) # id)
+AltsOf(q, id) ==
+    LET tr == SelectSeq(KindFlags, LAMBDA f : QCode(q, AllFlags \ {f}) # id)
         singles == [j \in 1..Len(tr) |-> [sigs |-> <<SigOf(tr[j])>>, form |-> QCode(q, AllFlags \ {tr[j]})]]
     IN IF Len(tr) <= 1 THEN singles
        ELSE Append(singles, [sigs |-> [j \in 1..Len(tr) |-> SigOf(tr[j])], form |-> QCode(q, AllFlags \ Rng(tr))])
-QRec(q) == [q |-> q, want |-> QIdeal(q), alts |-> Alts(q)]
+QRec(q) == LET id == QIdeal(q) IN [q |-> q, want |-> id, alts |-> AltsOf(q, id)]
+QRecs == LET qs == Queries IN [j \in 1..Len(qs) |-> QRec(qs[j])]
 
 ExportRec ==
     CASE Kind = "vars" ->
@@ -586,13 +586,13 @@ ExportRec ==
              vals |-> [p \in 1..Len(scene.shapes) |-> [i \in 1..SizeOf(ShapeOf(scene.shapes[p])) |-> VVal(p, i - 1)]],
              first |-> [p \in 1..Len(scene.shapes) |-> First(scene, p)],
              amat |-> [i \in 1..2 |-> [t \in 1..3 |-> AMat(i, t)]],
-             queries |-> [j \in 1..Len(Queries) |-> QRec(Queries[j])]]
+             queries |-> QRecs]
       [] Kind = "ldr" ->
             [kind |-> "ldr", scene |-> scene, n1 |-> P.N1, n2 |-> P.N2, ny |-> P.NY, hist |-> hist, out |-> out,
              decl |-> [i \in 1..P.NY |-> [k \in 1..NR |-> IF decl[i][k] THEN 1 ELSE 0]],
              cmat |-> [i \in 1..P.NY |-> [k \in 1..NR |-> IF decl[i][k] THEN CVal(i, k) ELSE 0]],
              d |-> [i \in 1..P.NY |-> DVal(i)], v1 |-> P.V1, v2 |-> P.V2,
-             queries |-> [j \in 1..Len(Queries) |-> QRec(Queries[j])]]
+             queries |-> QRecs]
       [] Kind = "call" ->
             [kind |-> "call", scene |-> scene, x |-> P.X, v1 |-> CallV(scene, 1), v2 |-> CallV(scene, 2), scalar |-> P.Scalar,
              data |-> [a |-> Ca, A1 |-> CA1, A2 |-> CA2, b |-> Cb, B1 |-> CB1, B2 |-> CB2],
@@ -602,7 +602,7 @@ ExportRec ==
              shp |-> AtomInfo(scene.atom).shp, queries |-> << QRec("call") >>]
       [] Kind = "dro" ->
             [kind |-> "dro", scene |-> scene, ns |-> P.NS, zhat |-> P.Zhat, hist |-> hist, ea |-> dep,
-             v |-> P.V, vs |-> P.Vs, queries |-> [j \in 1..Len(Queries) |-> QRec(Queries[j])]]
+             v |-> P.V, vs |-> P.Vs, queries |-> QRecs]
 
 Export == PrintT(ToJson(ExportRec))
 =============================================================================
